@@ -136,7 +136,12 @@ func main() {
 			if *timeout > 30000 {
 				cases = 5000000
 			}
-			if sa := P.searchInput(fn, args[2], cfg, cases, envInt("VERIF_SEED", 1)); sa != nil {
+			lastSearchCompleted = false
+			sa := P.searchInput(fn, args[2], cfg, cases, envInt("VERIF_SEED", 1))
+			if lastSearchCompleted {
+				rf.SearchCases = cases
+			}
+			if sa != nil {
 				rf2 := &ReplayFile{Obligation: rf.Obligation, Lemma: rf.Lemma, Package: rf.Package, Args: sa}
 				P.RunReplay(rf2)
 				if rf2.Status == "confirmed" {
